@@ -83,6 +83,17 @@ struct AcqCase {
 	assign: Vec<u8>,
 	flavour: Flavour,
 	write: bool,
+	/// every Poisonable reachable through the target was poisoned beforehand (a panic under the target's own guard)
+	poisoned: bool,
+}
+
+fn has_poisonable(s: &Spec) -> bool {
+	match s {
+		Spec::PR(_) | Spec::PM(_) | Spec::PPM | Spec::PPR | Spec::Pois(_) => true,
+		Spec::Coll(_, ms) => ms.iter().any(has_poisonable),
+		Spec::Native(n) => matches!(n, Native::BoxedTupRRP(..) | Native::OwnedPoisR | Native::PoisOwned(_)),
+		_ => false,
+	}
 }
 
 struct AcqOut {
@@ -92,10 +103,15 @@ struct AcqOut {
 	outcome: String,
 }
 
-pub fn run_acq_case(s: &Spec, assign: &[u8], flavour: Flavour, write: bool, keep_trace: bool) -> seq::SeqOut<(bool, u32)> {
+pub fn run_acq_case(s: &Spec, assign: &[u8], flavour: Flavour, write: bool, poisoned: bool, keep_trace: bool) -> seq::SeqOut<(bool, u32)> {
 	seq::case(Policy::RP, keep_trace, |w, ctl| {
 		let t = w.build(s).expect("probed");
 		ctl.init(w);
+		if poisoned {
+			let key = ThreadKey::get().expect("clean thread");
+			let (key, _) = interp::acquire(&t, true, Flavour::Guard, Body::PANIC, key, 99);
+			drop(key);
+		}
 		apply_assignment(ctl, &t.leaves, assign);
 		let before = ctl.table_fp();
 		let key = ThreadKey::get().expect("clean thread");
@@ -133,13 +149,16 @@ pub fn sweep_acquire(rep: &mut Report, specs: &[Spec], flavours: &[Flavour], pro
 					if !write && !info.sharable {
 						continue;
 					}
-					cases.push(AcqCase { spec: si, assign: a.clone(), flavour: *f, write });
+					cases.push(AcqCase { spec: si, assign: a.clone(), flavour: *f, write, poisoned: false });
+					if has_poisonable(&specs[si]) {
+						cases.push(AcqCase { spec: si, assign: a.clone(), flavour: *f, write, poisoned: true });
+					}
 				}
 			}
 		}
 	}
 	let outs = par_cases(&cases, |_, c| {
-		let o = run_acq_case(&specs[c.spec], &c.assign, c.flavour, c.write, false);
+		let o = run_acq_case(&specs[c.spec], &c.assign, c.flavour, c.write, c.poisoned, false);
 		let (ok, env) = o.value.unwrap_or((false, 0));
 		let mut violations = o.violations;
 		if o.outcome != "ok" {
@@ -152,7 +171,7 @@ pub fn sweep_acquire(rep: &mut Report, specs: &[Spec], flavours: &[Flavour], pro
 		rep.add("evaluations", 1);
 		if !o.ok || o.env > 0 {
 			// the interesting branch was taken: a try failed (rollback ran) or a blocking call had to wait
-			nontrivial.insert((c.spec, c.assign.clone(), c.flavour, c.write));
+			nontrivial.insert((c.spec, c.assign.clone(), c.flavour, c.write, c.poisoned));
 		}
 		if o.ok {
 			rep.add("acquisitions_succeeded", 1);
@@ -160,7 +179,7 @@ pub fn sweep_acquire(rep: &mut Report, specs: &[Spec], flavours: &[Flavour], pro
 			rep.add("acquisitions_failed", 1);
 		}
 		for v in &o.violations {
-			viol_to(rep, v, json!({"kind": "seq-acquire", "spec": specs[c.spec], "assign": c.assign, "flavour": c.flavour, "write": c.write}));
+			viol_to(rep, v, json!({"kind": "seq-acquire", "spec": specs[c.spec], "assign": c.assign, "flavour": c.flavour, "write": c.write, "poisoned": c.poisoned}));
 		}
 		let _ = &o.outcome;
 	}
@@ -511,6 +530,18 @@ pub fn c08_inputs(thorough: bool) -> Vec<Spec> {
 	out.push(Spec::Native(Native::MutRefs(1, 3)));
 	out.push(Spec::Native(Native::MutRefs(3, 3)));
 	out.push(Spec::Native(Native::BoxedNewVec(3)));
+	// tuples of every arity, members listed in descending address order
+	for which in [0u8, 1] {
+		for n in 2..=7 {
+			out.push(Spec::Native(Native::TupN(which, n)));
+		}
+	}
+	// an owned unit whose members are listed in descending address order, inside a sorting collection
+	for k in [Kind::Boxed, Kind::Ref] {
+		for n in 2..=3 {
+			out.push(Spec::Native(Native::OwnedDescIn(k, n)));
+		}
+	}
 	for k in [Kind::Boxed, Kind::Ref] {
 		out.push(Spec::Native(Native::VecsNew(k)));
 		out.push(Spec::Native(Native::VecsRefs(k)));
@@ -600,8 +631,13 @@ pub fn check_c08(tier: &str) -> ! {
 			}
 			for a in 0..sq.len() {
 				for b in a + 1..sq.len() {
-					pairs_checked += 1;
 					let (x, y) = (sq[a], sq[b]);
+					if x >= ARENA_TOTAL || y >= ARENA_TOTAL {
+						// fresh locks exist only in this input's world: their ids mean nothing across inputs
+						// (their order is compared across this input's own acquisitions above)
+						continue;
+					}
+					pairs_checked += 1;
 					if let Some((j, other)) = order.get(&(y, x)) {
 						rep.violation(Viol {
 							prop: "C08".into(),
@@ -653,6 +689,8 @@ pub enum NonAcq {
 	Construct,
 	PoisonQueries,
 	DebugGuardOfOther,
+	/// is_poisoned + clear_poison on Poisonables that really are poisoned
+	PoisonQueriesPoisoned,
 }
 
 struct NaCase {
@@ -696,6 +734,58 @@ fn run_nonacq(s: &Spec, t: Option<&Target<'_>>, w: &World<'_>, op: NonAcq) {
 			let _ = p;
 		}
 		NonAcq::DebugGuardOfOther => {}
+		NonAcq::PoisonQueriesPoisoned => {
+			let t = t.unwrap();
+			rt::begin_call(CallKind::NonAcquiring, false, format!("{}::is_poisoned/clear_poison(poisoned) #{}", t.shape, t.desc));
+			let p = t.coll.is_poisoned();
+			t.coll.clear_poison();
+			let p2 = t.coll.is_poisoned();
+			let mut seen = vec![];
+			for x in &w.arena.pr {
+				seen.push(x.is_poisoned());
+				x.clear_poison();
+				seen.push(!x.is_poisoned());
+			}
+			for x in &w.arena.pm {
+				seen.push(x.is_poisoned());
+				x.clear_poison();
+				seen.push(!x.is_poisoned());
+			}
+			rt::end_call();
+			if p == Some(false) || p2 == Some(true) || seen.iter().any(|b| !*b) {
+				rt::violation("C10", format!("poison-queries|{}", t.shape), format!("is_poisoned/clear_poison on the poisoned {}: before {:?}, after {:?}, arena {:?}", t.desc, p, p2, seen));
+			}
+		}
+	}
+}
+
+/// Poison the target (if it is a Poisonable) and every arena Poisonable: a panic with the guard alive.
+fn poison_everything(t: &Target<'_>, w: &World<'_>) {
+	use std::panic::{catch_unwind, resume_unwind, AssertUnwindSafe};
+	let go = |f: &mut dyn FnMut(ThreadKey)| {
+		let key = ThreadKey::get().expect("key free while poisoning");
+		rt::begin_call(CallKind::Acquire, false, "poison-setup".into());
+		let r = catch_unwind(AssertUnwindSafe(|| f(key)));
+		rt::end_call();
+		assert!(r.is_err());
+	};
+	if t.coll.is_poisoned().is_some() {
+		go(&mut |key| {
+			let _g = t.coll.lock(key);
+			resume_unwind(Box::new(rt::UserPanic(7777)));
+		});
+	}
+	for x in &w.arena.pr {
+		go(&mut |key| {
+			let _g = x.lock(key);
+			resume_unwind(Box::new(rt::UserPanic(7777)));
+		});
+	}
+	for x in &w.arena.pm {
+		go(&mut |key| {
+			let _g = x.lock(key);
+			resume_unwind(Box::new(rt::UserPanic(7777)));
+		});
 	}
 }
 
@@ -708,8 +798,8 @@ pub fn check_c17(tier: &str) -> ! {
 	for (si, info) in infos.iter().enumerate() {
 		let Some(info) = info else { continue };
 		for a in assignments(info) {
-			for op in [NonAcq::DebugTarget, NonAcq::Construct, NonAcq::PoisonQueries] {
-				if op == NonAcq::PoisonQueries && !matches!(specs[si], Spec::Pois(_) | Spec::PR(_) | Spec::PM(_) | Spec::PPM | Spec::PPR | Spec::Native(Native::PoisOwned(_))) {
+			for op in [NonAcq::DebugTarget, NonAcq::Construct, NonAcq::PoisonQueries, NonAcq::PoisonQueriesPoisoned] {
+				if matches!(op, NonAcq::PoisonQueries | NonAcq::PoisonQueriesPoisoned) && !matches!(specs[si], Spec::Pois(_) | Spec::PR(_) | Spec::PM(_) | Spec::PPM | Spec::PPR | Spec::Native(Native::PoisOwned(_))) {
 					continue;
 				}
 				if op == NonAcq::Construct && matches!(&specs[si], Spec::Native(n) if !matches!(n, Native::Arr3(..) | Native::TupMR(..) | Native::Slice(..) | Native::BoxedTupVecs(..) | Native::BoxedTupRRP(..) | Native::NewOW(..))) {
@@ -753,6 +843,9 @@ pub fn check_c17(tier: &str) -> ! {
 		let o = seq::case(c.policy, false, |w, ctl| {
 			let t = w.build(s).expect("probed");
 			ctl.init(w);
+			if c.op == NonAcq::PoisonQueriesPoisoned {
+				poison_everything(&t, w);
+			}
 			let held_leaves: Vec<(u32, u8)> = t.leaves.iter().copied().zip(c.assign.iter().copied()).filter(|(_, v)| *v != 0).collect();
 			let check = |ctl: &SeqCtl, before: u64| {
 				let after = ctl.table_fp();
@@ -1073,4 +1166,108 @@ fn owned_accessor_cases(rep: &mut Report) {
 		}
 	}
 	let _ = (M0, PR0);
+}
+
+// ------------------------------------------------------------------------------------------
+// C11, "at any point": the panicking acquisition is made by a destructor that runs while the thread is
+// already unwinding from an earlier panic (std::thread::panicking() is true throughout)
+// ------------------------------------------------------------------------------------------
+
+pub fn c11_nested_unwind(rep: &mut Report, thorough: bool) {
+	let mut specs = vec![Spec::R(0), Spec::M(0), Spec::PR(0), Spec::PM(0), Spec::OW(0)];
+	for k in KINDS {
+		specs.push(Spec::Coll(k, vec![Spec::R(1), Spec::R(0)]));
+		specs.push(Spec::Coll(k, vec![Spec::M(0), Spec::R(0)]));
+		specs.push(Spec::Pois(Box::new(Spec::Coll(k, vec![Spec::R(1), Spec::R(0)]))));
+		if thorough {
+			specs.push(Spec::Coll(k, vec![Spec::Coll(Kind::Retry, vec![Spec::R(2), Spec::R(0)]), Spec::R(1)]));
+			specs.push(Spec::Coll(k, vec![Spec::PR(0), Spec::R(1), Spec::OW(0)]));
+		}
+	}
+	specs.push(Spec::Native(Native::OwnedTupMR));
+	specs.push(Spec::Native(Native::MutRefs(0, 2)));
+	struct Case {
+		spec: usize,
+		write: bool,
+		flavour: Flavour,
+		/// panic inside the nested acquisition (else it completes normally inside the destructor)
+		panic: bool,
+	}
+	let mut cases = vec![];
+	for (si, s) in specs.iter().enumerate() {
+		for write in [true, false] {
+			if !write && !s.sharable() {
+				continue;
+			}
+			for flavour in FLAVOURS {
+				for panic in [true, false] {
+					cases.push(Case { spec: si, write, flavour, panic });
+				}
+			}
+		}
+	}
+	let outs = par_cases(&cases, |_, c| {
+		let s = &specs[c.spec];
+		let o = seq::case(Policy::RP, false, |w, ctl| {
+			let t = w.build(s).expect("duplicate-free");
+			ctl.init(w);
+			struct InDrop<'a, 'w> {
+				t: &'a Target<'w>,
+				c: &'a Case,
+				ran: &'a std::cell::Cell<u8>,
+			}
+			impl Drop for InDrop<'_, '_> {
+				fn drop(&mut self) {
+					if !std::thread::panicking() {
+						return;
+					}
+					let Some(key) = ThreadKey::get() else {
+						self.ran.set(2);
+						return;
+					};
+					let body = if self.c.panic { Body::PANIC } else { Body::TOUCH };
+					let r = std::panic::catch_unwind(std::panic::AssertUnwindSafe(|| interp::acquire(self.t, self.c.write, self.c.flavour, body, key, 4242)));
+					self.ran.set(if r.is_ok() { 1 } else { 3 });
+				}
+			}
+			let ran = std::cell::Cell::new(0u8);
+			let r = std::panic::catch_unwind(std::panic::AssertUnwindSafe(|| {
+				let _d = InDrop { t: &t, c, ran: &ran };
+				std::panic::resume_unwind(Box::new(rt::UserPanic(1)));
+			}));
+			rt::end_call();
+			assert!(r.is_err());
+			let what = format!("{}::{} #{}", t.shape, c.flavour.api(c.write), t.desc);
+			match ran.get() {
+				1 => {}
+				2 => rt::violation("C11", format!("nested-unwind-no-key|{}", rt::what_key(&what)), format!("inside a destructor during unwinding the thread's key is not obtainable before `{}`", what)),
+				x => rt::violation("C11", format!("nested-unwind-escaped|{}", rt::what_key(&what)), format!("`{}` made by a destructor during unwinding ended abnormally (code {})", what, x)),
+			}
+			let held = ctl.exec.lock().held(0);
+			if !held.is_empty() {
+				rt::violation("C11", format!("leak-after-nested-unwind|{}", rt::what_key(&what)), format!("`{}` ran{} inside a destructor while the thread was unwinding from an earlier panic; afterwards the thread still holds {:?}", what, if c.panic { " and panicked" } else { "" }, held));
+			}
+			if !seq::key_clean() {
+				rt::violation("C11", format!("key-lost-after-nested-unwind|{}", rt::what_key(&what)), format!("after `{}` inside a destructor during unwinding the thread's key is not obtainable", what));
+			}
+		});
+		(o.violations, o.outcome)
+	});
+	for (c, (vs, outcome)) in cases.iter().zip(&outs) {
+		rep.add("nested_unwind_cases", 1);
+		let replay = json!({"kind": "seq-nested-unwind", "spec": specs[c.spec], "write": c.write, "flavour": c.flavour, "panic_in_nested_call": c.panic});
+		for v in vs {
+			let mut v = v.clone();
+			if v.prop == "C05" {
+				v.key = format!("after-user-panic:C05:{}", v.key);
+				v.prop = "C11";
+			}
+			if v.prop == "C11" {
+				viol_to(rep, &v, replay.clone());
+			}
+		}
+		if outcome != "ok" {
+			rep.violation(Viol { prop: "C11".into(), key: format!("nested-unwind-{}|{}", outcome.split(':').next().unwrap(), specs[c.spec].shape_key()), detail: format!("nested-unwind case {:?}/{}/{} ended with {}", specs[c.spec].describe(), c.flavour.api(c.write), c.panic, outcome), replay });
+		}
+	}
 }
